@@ -680,8 +680,9 @@ func scenSigMut(rep *Report, tier string, seed int64) {
 	}
 	// the schedule the binary ships with: "V4OPRUpdate indicates the activation of additional
 	// currencies and ecdsa keys" (config/activations.go) — with the shipped constants an RCD-e signed
-	// batch validates exactly from the V4 OPR update on (the scenarios above run on a compressed
-	// schedule that overwrites both constants)
+	// batch validates exactly ABOVE the V4 OPR update height (`height > Fat2RCDEActivation`, as in the
+	// model's key_type_by_height; the scenarios above run on a compressed schedule that overwrites
+	// both constants)
 	{
 		saved := fat2.Fat2RCDEActivation
 		fat2.Fat2RCDEActivation = mainnetActs.RCDE
@@ -699,10 +700,10 @@ func scenSigMut(rep *Report, tier string, seed int64) {
 				e := g.Batch(h, u, []fat2.Transaction{Transfer(u.FA(), fat2.PTickerPEG, fat2.AddressAmountTuple{Address: g.Users[0].FA(), Amount: 5})})
 				_, err := fat2.NewTransactionBatch(e, int32(h))
 				rep.Count(fmt.Sprintf("sigmut:shipped-schedule:accepted=%v", err == nil))
-				rep.Case(fmt.Sprintf("shipped-schedule|after-v4=%v|accepted=%v", h >= v4, err == nil), true)
-				if (err == nil) != (h >= v4) {
+				rep.Case(fmt.Sprintf("shipped-schedule|after-v4=%v|accepted=%v", h > v4, err == nil), true)
+				if (err == nil) != (h > v4) {
 					path := WriteReplay(rep.Property, "sigmut-schedule", Replay{Property: rep.Property, Scenario: "sigmut", Seed: seed,
-						What:  fmt.Sprintf("with the shipped activation constants an RCD-e signed batch at height %d is accepted=%v; ecdsa keys activate with the V4 OPR update at %d", h, err == nil, v4),
+						What:  fmt.Sprintf("with the shipped activation constants an RCD-e signed batch at height %d is accepted=%v; ecdsa keys are accepted above the V4 OPR update height %d", h, err == nil, v4),
 						Extra: map[string]interface{}{"height": h, "Fat2RCDEActivation": mainnetActs.RCDE, "V4OPRUpdate": v4, "entry": hx(e.Content), "error": fmt.Sprint(err)}})
 					rep.Violate("sigmut:key-type-shipped-schedule", fmt.Sprintf("height %d: RCD-e signed batch accepted=%v (Fat2RCDEActivation=%d, V4OPRUpdate=%d)", h, err == nil, mainnetActs.RCDE, v4), path)
 					break
